@@ -1,7 +1,8 @@
 """Which contract groups serve which property."""
 PROPERTY_GROUPS = {
     'C01': ['rep', 'dt'],
-    'C02': ['rep'],
+    'C02': ['rep', 'mp4'],
+    'C04': ['mp4'],
     'C06': ['rep', 'timing', 'dt'],
     'C08': ['timing'],
     'C09': ['timing', 'rep', 'dt'],
